@@ -41,6 +41,7 @@ IsArr(a) == a.k = "a"
 PlaneShape(P) == IF P.mask.k = "2d" THEN <<Len(P.mask.m), Len(P.mask.m[1])>>
                  ELSE IF P.mask.k = "3d" THEN <<Len(P.mask.m[1]), Len(P.mask.m[1][1])>>
                  ELSE IF IsArr(P.amp) THEN <<Len(P.amp.v), Len(P.amp.v[1])>>
+                 ELSE IF IsArr(P.opd) THEN <<Len(P.opd.v), Len(P.opd.v[1])>>      \* a sampled OPD gives the plane its shape as well
                  ELSE None
 \* segment masks: the documented rule "if no mask is given it is created from the amplitude"
 NSeg(P) == IF P.mask.k = "3d" THEN Len(P.mask.m) ELSE 1
